@@ -862,6 +862,24 @@ fn run_tests(
             ..
         } => {
             if attributes.skip() {
+                // A test that is not run must still be written back unchanged when the
+                // corpus file is rewritten, otherwise `--update` deletes it.
+                if opts.update {
+                    let input = String::from_utf8(input.clone()).unwrap();
+                    let output = if attributes.cst {
+                        output.clone()
+                    } else {
+                        format_sexp(&output, 0)
+                    };
+                    corrected_entries.push(TestCorrection::new(
+                        &name,
+                        input,
+                        output,
+                        &attributes_str,
+                        header_delim_len,
+                        divider_delim_len,
+                    ));
+                }
                 test_summary.parse_results.add_case(TestResult {
                     name,
                     info: TestInfo::ParseTest {
@@ -875,6 +893,24 @@ fn run_tests(
             }
 
             if !attributes.platform {
+                // A test that is not run must still be written back unchanged when the
+                // corpus file is rewritten, otherwise `--update` deletes it.
+                if opts.update {
+                    let input = String::from_utf8(input.clone()).unwrap();
+                    let output = if attributes.cst {
+                        output.clone()
+                    } else {
+                        format_sexp(&output, 0)
+                    };
+                    corrected_entries.push(TestCorrection::new(
+                        &name,
+                        input,
+                        output,
+                        &attributes_str,
+                        header_delim_len,
+                        divider_delim_len,
+                    ));
+                }
                 test_summary.parse_results.add_case(TestResult {
                     name,
                     info: TestInfo::ParseTest {
